@@ -298,6 +298,55 @@ class C05(ProgCheck):
                     runs.append(2 + j)
             n += 1
             cases.append(self.xcase("x%d" % n, funcs, [(0, setup)] + defs, [0] + runs, {"family": "alias_sequence", "copy": how}))
+        # (6) argument forms: every member / constructor / call taking a payload argument x payload form (variable, element, item, constant,
+        # temporary, whole table spliced) x the form of EVERY OTHER argument (constant / variable / computed temporary position or count).
+        # Oracle: model dump (deep, incl. rows) + "an lvalue argument is unchanged afterwards"; each statement is run twice.
+        setup2 = setup + [("let", "T2", ("call", "tab", [I(2), I(3)])), ("let", "TT2", ("call", "tab", [I(2), ("call", "tab", [I(2), I(4)])])),
+                          ("let", "TS2", ("call", "tab", [I(2), S("r")])), ("let", "TU2", ("call", "tab", [I(2), ("call", "tup", [I(2), S("b")])])),
+                          ("let", "U2", ("call", "tup", [I(8), S("h")])), ("let", "P0", I(0)), ("let", "P1", I(1))]
+        IDFX = lambda x: ("fcall", "IDF", [x])
+        payloads = {
+            "T": [V("I1"), M("at", V("T2"), I(0)), ("item", V("U2"), 1), I(9), ("bin", "ADD", V("I1"), I(1)), IDFX(V("I1")),
+                  V("T2"), IDFX(V("T2")), M("at", V("TT2"), I(0)), M("at", IDFX(V("TT2")), I(0))],
+            "TT": [V("T2"), M("at", V("TT2"), I(1)), IDFX(V("T2")), ("call", "tab", [I(1), I(6)]), M("at", IDFX(V("TT2")), I(1)), V("TT2"), IDFX(V("TT2"))],
+            "TS": [V("S"), M("at", V("TS2"), I(0)), ("item", V("U2"), 2), S("c"), IDFX(V("S")), ("bin", "ADD", V("S"), S("+")), V("TS2"), IDFX(V("TS2"))],
+            "TU": [V("U2"), M("at", V("TU2"), I(0)), ("call", "tup", [I(5), S("e")]), IDFX(V("U2")), V("TU2"), IDFX(V("TU2"))],
+        }
+        def positions(rv, ins):
+            cnt = M("count", V(rv))
+            ps = [("const", I(0)), ("var", V("P1")), ("computed", ("bin", "SUB", V("P1"), I(1))), ("computed", ("bin", "SUB", cnt, I(1))),
+                  ("computed", ("bin", "ADD", V("P0"), V("P1"))), ("computed", IDFX(V("P0")))]
+            if ins:
+                ps.append(("computed", cnt))
+            return ps
+        af = self.xstats.setdefault("arg_forms", {"payload_kinds": {}, "other_arg_kinds": {}})
+        def kind_of(e):
+            return {"var": "variable", "lit": "constant", "item": "item", "fcall": "temporary", "call": "temporary", "bin": "temporary"}.get(
+                e[0], "element" if e[0] == "member" and chain_root(e) else "temporary")
+        def addx(stmts, pk, ok):
+            nonlocal n
+            n += 1
+            af["payload_kinds"][pk] = af["payload_kinds"].get(pk, 0) + 1
+            af["other_arg_kinds"][ok] = af["other_arg_kinds"].get(ok, 0) + 1
+            cases.append(self.xcase("x%d" % n, funcs, [(0, setup2), (1, stmts)], [0, 1, 1], {"family": "arg_forms"}))
+        for rv, pls in payloads.items():
+            for pl in pls:
+                for ok, pos in positions(rv, True):
+                    addx([("do", M("insert", V(rv), pos, pl))], kind_of(pl), ok)
+                for ok, pos in positions(rv, False):
+                    addx([("do", M("put", V(rv), pos, pl))], kind_of(pl), ok)
+                addx([("do", M("concat", V(rv), pl))], kind_of(pl), "none")
+                for ok, cnt in [("const", I(2)), ("var", V("P1")), ("computed", ("bin", "ADD", V("P1"), I(1))), ("computed", M("count", V("T2")))]:
+                    addx([("let", "R", ("call", "tab", [cnt, pl]))], kind_of(pl), ok)
+                for ok, other in [("const", I(1)), ("var", V("P1")), ("computed", ("bin", "ADD", V("P1"), I(1))), ("computed", IDFX(V("S")))]:
+                    addx([("let", "R", ("call", "tup", [pl, other]))], kind_of(pl), ok)
+                    addx([("let", "R", ("call", "tup", [other, pl]))], kind_of(pl), ok)
+                addx([("let", "R", IDFX(pl))], kind_of(pl), "none")
+                addx([("let", "R", M("count", IDFX(pl)))], kind_of(pl), "none")
+        for idx, pls in ((1, payloads["T"][:6]), (2, payloads["TS"][:6])):
+            for pl in pls:
+                addx([("do", ("setitem", V("U"), idx, pl))], kind_of(pl), "none")
+                addx([("do", ("setitem", M("at", V("TU"), ("bin", "SUB", V("P1"), I(1))), idx, pl))], kind_of(pl), "computed")
         # (5) a held element reference whose variable is changed by a later operand (dangling): model = hazard oob
         for e in [M("put", M("at", V("TT"), I(0)), I(0), M("count", M("concat", M("concat", V("TT"), V("TT")), V("TT")))),
                   ("bin", "ADD", M("at", M("at", V("TT"), I(1)), I(0)), M("count", M("concat", M("concat", M("concat", V("TT"), V("TT")), V("TT")), V("TT")))),
@@ -477,6 +526,26 @@ class C05(ProgCheck):
                              ("forall", "%sR" % t.upper(), ("var", b), "desc", [("print", [("var", "%sR" % t.upper())])])]
             n += 1
             cases.append(self.prog_case("c%d" % n, prog + tail, {"family": "random"}))
+        # assignment THROUGH a forall iterator, then reads of the iterator later in the same iteration (operand, assignment source, call /
+        # constructor / put argument): the element must still behave as an lvalue (LETStatement::doit, pointer branch). Value-semantics model.
+        V_ = lambda x: ("var", x)
+        for k, (mk, rd) in enumerate(itertools.product(
+                [lambda: ("let", "EQ", V_("KV")), lambda: ("let", "EQ", ("bin", "ADD", V_("EQ"), V_("KV"))), lambda: ("let", "EQ", ("fcall", "FID", [V_("KV")]))],
+                [lambda: [("print", [("bin", "ADD", V_("EQ"), V_("KV"))]), ("print", [("bin", "ADD", V_("EQ"), V_("KV"))])],
+                 lambda: [("let", "ACC", ("bin", "ADD", V_("ACC"), V_("EQ"))), ("let", "LAST", V_("EQ"))],
+                 lambda: [("let", "LAST", ("fcall", "FID", [V_("EQ")])), ("let", "TB", ("call", "tab", [I(2), V_("EQ")]))],
+                 lambda: [("do", ("member", "put", V_("OT"), [I(0), V_("EQ")])), ("do", ("member", "concat", V_("OT"), [V_("EQ")]))]])):
+            for ty in ("i", "s"):
+                kv, el = (I(3), I(5)) if ty == "i" else (S("k"), S("ab"))
+                prog = [("func", "FID", ["%s7" % ty.upper()], ty, [("return", V_("%s7" % ty.upper()))], [])]
+                prog += [("let", "KV", kv), ("let", "ACC", kv), ("let", "LAST", kv), ("let", "OT", ("call", "tab", [I(1), el])), ("let", "TB", ("call", "tab", [I(1), el])),
+                         ("let", "WT", ("call", "tab", [I(3), el])),
+                         ("forall", "EQ", V_("WT"), "auto", [mk()] + rd() + [("print", [V_("EQ")])]),
+                         ("forall", "ER", V_("WT"), "auto", [("print", [V_("ER")])]),
+                         ("forall", "ER", V_("OT"), "auto", [("print", [V_("ER")])]), ("forall", "ER", V_("TB"), "auto", [("print", [V_("ER")])]),
+                         ("print", [V_("ACC"), S("|"), V_("LAST"), S("|"), V_("KV")])]
+                n += 1
+                cases.append(self.prog_case("c%d" % n, prog, {"family": "iterator_assign_then_read"}))
         # built-ins that hand their argument's cell through (degenerate / null cases), followed by an in-place member: implementation only
         # (the storage model has no built-ins); a changed variable other than R is the recorded finding, anything else is compared as usual
         PT = [('substr(e, 0)', 'E'), ('lsubstr(e, 3)', 'E'), ('rsubstr(e, 3)', 'E'), ('substr(s, null)', 'S'), ('substr(s, 0, null)', 'S'), ('substr(s, int())', 'S'),
